@@ -68,6 +68,8 @@ type reqState struct {
 	createCalls     int
 	scopes          []godi.Scope
 	createErrs      []error
+	initInsts       []*inst // InitDep instances the scope initializer received for this request
+	initFailed      bool    // the scope initializer failed for this request (plan initfail)
 	mws             []mwObs
 	errHCalls       int // custom scope-middleware error handler invocations
 	errHGotErr      error
